@@ -93,7 +93,7 @@ class CircuitBuilder(GateLibrary, MeasureLibrary, ResetLibrary):
             qubit: qubit to check.
         """
         index = Qubit(qubit).index
-        if index >= self.register_manager.get_qubit_register_size():
+        if index < 0 or index >= self.register_manager.get_qubit_register_size():
             msg = "qubit index is out of bounds"
             raise IndexError(msg)
 
@@ -103,7 +103,7 @@ class CircuitBuilder(GateLibrary, MeasureLibrary, ResetLibrary):
         Args:
             index: bit index
         """
-        if index >= self.register_manager.get_bit_register_size():
+        if index < 0 or index >= self.register_manager.get_bit_register_size():
             msg = "bit index is out of bounds"
             raise IndexError(msg)
 
